@@ -642,6 +642,7 @@ class Interp:
                 return K(tuple(out))
             return st.alloc("list", list(out)) if self.heap else R("list", items=tuple(out))
         elem = R("elem", of=it)
+        st.effects.append(("foreach", norm(gen.iter), it))
         self._assign(gen.target, elem, sub)
         ifs = tuple(self.eval(c, sub) for c in gen.ifs)
         if kind == "dict":
